@@ -488,6 +488,8 @@ theorem step_inv (st st' : St) (l : Lbl) (hi : StInv st) (hs : step st l = some 
   | getOrCreate a tags create =>
     simp only [step] at hs
     split at hs
+    · simp at hs; subst hs; exact ⟨hc, hv, hnp⟩
+    split at hs
     · rename_i s hf
       split at hs
       · rename_i p hp
@@ -505,6 +507,8 @@ theorem step_inv (st st' : St) (l : Lbl) (hi : StInv st) (hs : step st l = some 
       · simp at hs; subst hs; exact ⟨hc, hv, hnp⟩
   | getTags a s lock =>
     simp only [step] at hs
+    split at hs
+    · simp at hs; subst hs; exact ⟨hc, hv, hnp⟩
     split at hs
     · simp at hs; subst hs; exact ⟨hc, hv, hnp⟩
     · rename_i p hp
@@ -591,6 +595,8 @@ theorem step_inv (st st' : St) (l : Lbl) (hi : StInv st) (hs : step st l = some 
     split at hs
     · simp at hs
     · rename_i hva
+      split at hs
+      · simp at hs; subst hs; exact ⟨hc, hv, hnp⟩
       simp at hs; subst hs
       obtain ⟨i1, i2, i3⟩ := snap_inv a sel skipping st.c.next st.c.locker (List.range st.c.next) st.c.parts st.c.holds hc
       refine ⟨i1, ?_, hnp⟩
@@ -609,6 +615,11 @@ theorem step_inv (st st' : St) (l : Lbl) (hi : StInv st) (hs : step st l = some 
       split at hs
       · simp at hs
       · split at hs
+        · simp at hs; subst hs
+          refine ⟨hc, ?_, hnp⟩
+          apply visTok_upd_other _ _ _ _ hv
+          intro v' hv'; cases hv'
+        split at hs
         · simp at hs; subst hs
           refine ⟨hc, ?_, hnp⟩
           apply visTok_upd_other _ _ _ _ hv
@@ -692,6 +703,9 @@ theorem step_inv (st st' : St) (l : Lbl) (hi : StInv st) (hs : step st l = some 
           show List.count s' v'.owed ≤ List.count ⟨b, s', true⟩ (relAll a v.owed st.c.parts st.c.holds).2
           rw [i2 ⟨b, s', true⟩ (Or.inl e)]; exact this
       · simp at hs
+  | shutdown =>
+    simp only [step] at hs
+    simp at hs; subst hs; exact ⟨hc, hv, hnp⟩
 
 theorem run_inv (ls : List Lbl) : ∀ st, StInv st → StInv (run st ls) := by
   induction ls with
